@@ -532,7 +532,9 @@ def falsify_natively(ob_fn, inst: Instance, seed=0, tries=60):
         vals = {}
         for n in names:
             kind = rnd.random()
-            if kind < 0.35:
+            if kind < 0.1:
+                v = rnd.choice([1e-7, 3e-9, -2e-8, 1e-05, 5e-10])
+            elif kind < 0.35:
                 v = float(rnd.randint(-9, 9))
             elif kind < 0.7:
                 v = rnd.choice([-1, 1]) * rnd.choice([0.25, 0.5, 1.5, 2.75, 7.0, 12.5, 33.0, 100.0, 181.0, 275.0, 359.5, 400.0])
